@@ -83,6 +83,20 @@ def no_write_before_reject(rep, F, tag):
         for f in forms:
             st = strip_generics(f.impl_self or '')
             leaves = Walker(f, cut_loops=True).leaves()
+            if st == '[T]':
+                # "empty updates are no-ops": emptiness is decided before any rejection (an empty Vec must not be refused for
+                # its length), and the empty path returns Ok
+                for val, ret, ev, tr in leaves:
+                    if ret[0] != 's':
+                        continue
+                    emp = val.get('is_empty(self)')
+                    r_ = str(ret[1])
+                    if r_.startswith('Result::Err') or r_.startswith('from_residual('):
+                        R.check(emp == 0, 'empty-is-noop|%s|%s%s' % (f.name, 'err', tag),
+                                '%s for %s returns %s on a path where the update has not been found non-empty (%s): an empty update must be '
+                                'a no-op, not an error' % (f.name, st, r_[:60], {k[:40]: v for k, v in val.items()}), f.loc())
+                    if emp == 1:
+                        R.check(r_.startswith('Result::Ok'), 'empty-is-noop|%s|%s%s' % (f.name, 'ok', tag), '%s for %s: the empty update returns %s' % (f.name, st, r_[:60]), f.loc())
             for val, ret, ev, tr in leaves:
                 if ret[0] in ('diverge', 'cut'):
                     continue
